@@ -107,39 +107,7 @@ def rules(rep, m):
             r1.ok()
             continue
         # parameter memo?
-        memo = True
-        why = ""
-        for fk in writers:
-            f = m.funcs[fk]
-            pids = {p["id"] for p in f.params}
-            for lhs, rhs, kind, node in inv.stores(f):
-                root = strip(lhs, casts=True)
-                if not (root["kind"] == "DeclRefExpr" and m.global_key(f.unit, f, root.get("ref", {})) == g):
-                    continue
-                if kind != "=" or rhs is None:
-                    memo = False
-                    why = "updated in place (%s) in %s" % (kind, f.name)
-                    continue
-                for x in walk(rhs):
-                    if x["kind"] == "CallExpr":
-                        nm = callee_ref(x)
-                        if nm not in PURE_MATH:
-                            memo = False
-                            why = "value computed by calling %s in %s" % (nm, f.name)
-                    if x["kind"] == "DeclRefExpr" and x.get("ref", {}).get("kind") in ("VarDecl", "ParmVarDecl"):
-                        if x["ref"]["id"] in pids:
-                            continue
-                        gk2 = m.global_key(f.unit, f, x["ref"])
-                        if gk2 == g:
-                            memo = False
-                            why = "depends on its own previous value in %s" % f.name
-                        elif gk2 is None:
-                            # a non-static local: only allowed if it is itself parameter-derived (not checked further)
-                            memo = False
-                            why = "depends on local '%s' in %s" % (x["ref"]["name"], f.name)
-                        elif m.globals[gk2].local_to != f.key and not m.globals[gk2].const:
-                            memo = False
-                            why = "depends on '%s'" % gk2
+        memo, why = common.parameter_memo(m, g, writers)
         if memo:
             classes[g] = "parameter memo"
             r1.instance("%s: parameter memo" % g)
